@@ -46,7 +46,9 @@ CLAIMED["C05"] = dict(
          "of the property, for every state of the transition object. For the measure engine's own snapshots: snapshot.incRef / "
          "partWrapper.incRef add exactly one reference, tsTable.currentSnapshot returns the published snapshot with exactly one "
          "more reference, and snapshot.decRef leaves every part untouched while other holders remain and releases every part of "
-         "the snapshot exactly once when the last holder leaves (loop invariant over the part list).",
+         "the snapshot exactly once when the last holder leaves (loop invariant over the part list); currentSnapshot takes its pin "
+         "while the table's read lock is held (ghost lock flag). The same contracts are proved for the stream engine and for the "
+         "trace engine (whose snapshot also implements the generic Snapshot interface through IncRef/DecRef).",
     note=COMMON_NOTE + "Assumed: the Snapshot.IncRef/DecRef and Manager.ReplaceSnapshot interface contracts as documented in the "
          "package; partWrapper.decRef (goroutine). Sequential semantics (no interleavings). Narrow claim: stream/trace/sidx snapshot "
          "reference counting, snapshot.merge/remove/copyAllTo (maps not modelled), the introducer loops and the "
@@ -180,7 +182,8 @@ CLAIMED["C08"] = dict(
          "changes nothing outside the decoded entry and nothing at all when the buffer holds no escape byte; (4) part-level time "
          "pruning of the measure engine (snapshot.getParts): every selected part's time range meets the query range, earlier "
          "results are kept and the count is exact (unbounded); that no part meeting the range is discarded is a BOUNDED stand-in "
-         "(snapshots of at most 3 parts, complete unrolling), labelled bounded and not counted as proved.",
+         "(snapshots of at most 3 parts, complete unrolling), labelled bounded and not counted as proved; the stream engine's "
+         "getParts is proved to the same contract.",
     note=COMMON_NOTE + "Assumed: xxhash.Sum64 deterministic; the unsafe 8-byte view of the hash variable is a deterministic function "
          "of its value; sync/atomic operations as single sequential steps (no interleaving of concurrent Adds); bytes.Equal kept as an "
          "uninterpreted relation; bytes.IndexByte/Clone contracts; bit sets smaller than 2^57 words; len(bits) > 0 is a precondition "
@@ -259,13 +262,15 @@ CLAIMED["C19"] = dict(
          "segment and leaves no segment pinned, whatever snapshotInto returns; measure tsTable.TakeFileSnapshot pins the current "
          "snapshot before the first part is linked, writes the manifest of exactly that pinned snapshot while still pinned, gives "
          "the pin back exactly once on every path, and removes the destination on failure (ghost flag on MustRMAll) but never on "
-         "success; snapshot.decRef releases every part exactly once when (and only when) the last holder leaves.",
+         "success; the manifest written by createMetadata lists every part of the snapshot it is given, in order; snapshot.decRef "
+         "releases every part exactly once when (and only when) the last holder leaves. The stream engine's TakeFileSnapshot / "
+         "createMetadata and the trace engine's createMetadata are proved to the same contracts.",
     note=STORAGE_NOTE + "Also assumed: CreateHardLink/SyncPath/CreateFile, createMetadata (manifest I/O), the series-index and "
          "shard-table snapshot calls inside snapshotOpen, partWrapper.decRef (spawns a goroutine). Narrow claim, said plainly: that "
          "the copy OPENS as a valid database and answers as one snapshot state (recovery code, bluge), that every part listed in "
          "the manifest is present (the manifest also lists in-memory parts that are not linked; the loader intersects with the "
-         "directories present), hard-link semantics, interleavings with flush/merge/retention, and the stream/trace/sidx twins of "
-         "TakeFileSnapshot (same shape, not put under contract) are NOT decided.",
+         "directories present), hard-link semantics, interleavings with flush/merge/retention, and the trace engine's "
+         "TakeFileSnapshot (ranges over a map of secondary indexes; maps are not modelled) and the sidx snapshots are NOT decided.",
     technique="contract-based deductive verification with ghost state and caller-side at-call assertions: VCs from the typed Go AST "
               "(govc) incl. deferred closures over named results; obligations discharged by z3/cvc5",
     design="§3 C19, §7.2")
